@@ -27,6 +27,12 @@ from .k_sylvdiag import cg, cmat  # noqa: E402
 
 FORMATS = ["list", "dict", "mono", "expr", "blocks", "series"]
 DESIGNATIONS = ["indices", "eigid", "eigrot"]
+# extra presentations of SPARSE instances: the same numbers as ndarray, and as scipy sparse MATRIX
+# objects (csr_matrix / coo_matrix: `*` is the matrix product there, unlike csr_array) in the places
+# where the blocks reach the algorithm unconverted: nested block lists, a BlockSeries of blocks,
+# and full sparse matrices together with sparse-matrix subspace_eigenvectors
+EXTRA_PRESENTATIONS = [("dict_dense", "indices"), ("blocks_spm", "indices"), ("bseries_spm", "indices"), ("dict_spm", "eigsp")]
+PREBLOCKED = ("blocks", "blocks_spm", "bseries_spm")
 
 # symbol names: creation order and reversed-name order both differ from the name order
 SYMBOL_NAMES = ["a_z", "b_y", "c_x"]
@@ -104,6 +110,9 @@ def make_instance(rng, vt, k, small=False, analytic=False):
             break
     c = copy.deepcopy(c)
     dim = len(c["sub"])
+    if vt == "sparse" and c["fully"] is None and max(c["sub"]) >= 1 and rng.random() < 0.7:
+        # a block in fully_diagonalize: the diag / offdiag masks are applied to the sparse blocks
+        c["fully"] = [rng.randrange(max(c["sub"]) + 1)]
     if k % 2 == 0 and not analytic:  # first-order terms only, so that the list format applies
         c["H"] = {key: M for key, M in c["H"].items() if sum(gen.unkey(key)) <= 1}
     if mixed:
@@ -246,15 +255,23 @@ def present(inst, fmt, desig, rng):
         return None
     if fmt == "list" and any(sum(gen.unkey(k)) > 1 for k in inst["H"]):
         return None
-    if fmt == "blocks" and desig != "indices":
+    if fmt in PREBLOCKED and desig != "indices":
         return None
-    H, R, L, D = view(inst, desig, rng)
+    if fmt in ("dict_dense", "blocks_spm", "bseries_spm", "dict_spm") and vt != "sparse":
+        return None
+    if (fmt == "dict_spm") != (desig == "eigsp"):
+        return None
+    H, R, L, D = view(inst, "eigid" if desig == "eigsp" else desig, rng)
     pairs = D is not None
     kw = {}
     info = dict(H=H, R=R, L=L, pairs=pairs, D=D, syms=None)
-    if fmt != "blocks":
+    spm_kinds = [sp.csr_matrix, sp.coo_matrix]
+    conv_spm = lambda M, k=0: spm_kinds[k % 2](implrun.to_numpy(M))  # noqa: E731
+    if fmt not in PREBLOCKED:
         if desig == "indices":
             kw["subspace_indices"] = list(sub)
+        elif desig == "eigsp":
+            kw["subspace_eigenvectors"] = [sp.csr_matrix(conv_vec(R[b], vt)) for b in range(nb)]
         else:
             if pairs:
                 kw["subspace_eigenvectors"] = [(conv_vec(R[b], vt), conv_vec(L[b], vt)) for b in range(nb)]
@@ -268,6 +285,22 @@ def present(inst, fmt, desig, rng):
         items = list(H.items())
         rng.shuffle(items)
         ham = {n: conv(M, vt) for n, M in items}
+    elif fmt == "dict_dense":
+        ham = {n: conv(M, "dense") for n, M in H.items()}
+    elif fmt == "dict_spm":
+        ham = {n: sp.csr_matrix(implrun.to_numpy(M)) for n, M in H.items()}
+    elif fmt == "blocks_spm":
+        ham = {n: [[conv_spm(gq.block(M, pos[i], pos[j]), i + j) for j in range(nb)] for i in range(nb)] for n, M in H.items()}
+    elif fmt == "bseries_spm":
+        from pymablock.series import BlockSeries
+        data = {}
+        for n, M in H.items():
+            for i in range(nb):
+                for j in range(nb):
+                    B = gq.block(M, pos[i], pos[j])
+                    if not gq.is_zero(B):
+                        data[(i, j) + tuple(n)] = conv_spm(B, i + j)
+        ham = BlockSeries(data=data, shape=(nb, nb), n_infinite=nparam)
     elif fmt == "mono":
         syms = symbols_for(nparam)
         items = list(H.items())
@@ -370,7 +403,7 @@ def model_term(inst, fmt, desig, info, queries):
     ids = {n: k + 1 for k, n in enumerate(sorted(H))}
     tbl = "[%s]" % "; ".join("(%d%%Z, %s)" % (ids[n], cmat(H[n])) for n in sorted(H))
     qs = "[%s]" % "; ".join("(%s, (%d%%nat, %d%%nat), %s)" % (corder(n), i, j, cmat(E)) for n, i, j, E in queries)
-    if fmt == "blocks":
+    if fmt in PREBLOCKED:
         tblb = []
         grids = []
         for n in sorted(H):
@@ -393,7 +426,7 @@ def model_term(inst, fmt, desig, info, queries):
     if fmt == "list":
         # absent first-order terms were passed as explicit zero matrices: label 0 is the zero value
         c = "(@CList ZVals [%s])" % "; ".join("%d%%Z" % ids.get(n, 0) for n in [zero] + units)
-    elif fmt in ("dict", "series"):
+    elif fmt in ("dict", "series", "dict_dense", "dict_spm"):
         c = "(@CDict ZVals [%s])" % "; ".join("(%s, %d%%Z)" % (corder(n), ids[n]) for n in sorted(H))
     elif fmt == "mono":
         # symbol p has rank p in the name order
@@ -509,8 +542,8 @@ def tie_formats(ctx, ninst=None):
     vts = ["sympy", "dense", "sparse"]
     for k in range(n):
         inst = make_instance(rng, vts[k % 3], k // 3)
-        for fmt in FORMATS:
-            for desig in DESIGNATIONS:
+        for fmt, desig in [(f, d) for f in FORMATS for d in DESIGNATIONS] + EXTRA_PRESENTATIONS:
+            if True:
                 try:
                     r = observe_otbs(inst, fmt, desig, rng)
                 except Exception as e:  # noqa: BLE001
@@ -595,7 +628,7 @@ def compare_instance(inst, rng, N, seed=None):
     ref = None
     failures = []
     count = 0
-    combos = [(fmt, desig) for fmt in ["dict"] + [f for f in FORMATS if f != "dict"] for desig in DESIGNATIONS]
+    combos = [(fmt, desig) for fmt in ["dict"] + [f for f in FORMATS if f != "dict"] for desig in DESIGNATIONS] + EXTRA_PRESENTATIONS
     if inst.get("reduced") and not inst.get("light"):
         # quick tier, large symbolic instance: every format once, the designations on two formats
         combos = [(f, "indices") for f in ["dict"] + [f for f in FORMATS if f != "dict"]] + [("dict", "eigid"), ("dict", "eigrot"), ("expr", "eigrot")]
@@ -653,12 +686,9 @@ def oracle_formats(ctx, ninst=None):
             nt.add(core.canon(inst))
         if k < 3:
             samples.append(inst)
-    if ctx.quick:
-        results = [_oracle_task(t) for t in tasks]
-    else:
-        import multiprocessing
-        with multiprocessing.Pool(16) as pool:
-            results = pool.map(_oracle_task, tasks, chunksize=1)
+    import multiprocessing
+    with multiprocessing.Pool(4 if ctx.quick else 16) as pool:   # exact symbolic runs dominate the wall time
+        results = pool.map(_oracle_task, tasks, chunksize=1)
     evals = sum(c for c, _ in results)
     for _, fs in results:
         failures += fs
